@@ -8,12 +8,17 @@ package decoder
 
 import (
 	"bytes"
+	"context"
 	"encoding/json"
 	"fmt"
 	"os"
+	"os/exec"
 	"path/filepath"
 	"runtime"
+	"runtime/debug"
+	"strconv"
 	"strings"
+	"syscall"
 	"testing"
 	"time"
 )
@@ -231,41 +236,166 @@ func TestVerifC07Addon(t *testing.T) {
 	}
 }
 
+// ---------- C34: executions isolated in a child process ----------
+// The real decoders run in a re-exec'ed child of this test binary whose address space is
+// capped (RLIMIT_AS) and whose Go heap has a soft limit, so that an absurd allocation ends
+// the CHILD with "fatal error: runtime: out of memory" (not recoverable in Go). The child
+// leaves a breadcrumb with the input in flight and one JSON line per finished input; the
+// parent turns a dead child into an observed outcome for exactly that input (with the
+// input as replay) and restarts the child behind it.
+type vdExec struct {
+	Pos   int    `json:"pos"` // position in the inputs file
+	Obs   string `json:"obs"`
+	Kind  string `json:"kind"`
+	Pan   string `json:"pan,omitempty"`
+	Alloc uint64 `json:"alloc"`
+	DurNs int64  `json:"dur_ns"`
+	Fatal string `json:"fatal,omitempty"` // set by the parent: the child died on this input
+}
+
+const vdChildAS = 8 << 30       // RLIMIT_AS of the child
+const vdChildMemLimit = 4 << 30 // debug.SetMemoryLimit of the child
+
+func vdRunOne(in vdInput) (vdExec, bool) {
+	var e vdExec
+	_, _, idxSupported := vdecParseIndex(nil)
+	var dur time.Duration
+	if in.Kind == "index" {
+		if !idxSupported {
+			return e, false
+		}
+		e.Kind = vdIdxKind()
+		e.Pan, e.Alloc, dur = vdGuard(func() { e.Obs, _, _ = vdIndexObs(in.Data) })
+	} else {
+		e.Kind = vdKind()
+		e.Pan, e.Alloc, dur = vdGuard(func() { e.Obs, _, _ = vdDecodeObs(in.Data) })
+	}
+	e.DurNs = int64(dur)
+	return e, true
+}
+
+func vdChildMain(t *testing.T, name string) {
+	_ = syscall.Setrlimit(syscall.RLIMIT_AS, &syscall.Rlimit{Cur: vdChildAS, Max: vdChildAS})
+	debug.SetMemoryLimit(vdChildMemLimit)
+	from, _ := strconv.Atoi(os.Getenv("VERIF_C34_FROM"))
+	inputs := vdLoadInputs(t, "c34_inputs.json")
+	cur := filepath.Join(vOutDir(), "c34_"+name+"_cur")
+	f, err := os.OpenFile(filepath.Join(vOutDir(), "c34_"+name+"_obs.jsonl"), os.O_APPEND|os.O_CREATE|os.O_WRONLY, 0o644)
+	if err != nil {
+		t.Fatal(err)
+	}
+	defer f.Close()
+	for pos := from; pos < len(inputs); pos++ {
+		_ = os.WriteFile(cur, []byte(strconv.Itoa(pos)), 0o644)
+		e, ok := vdRunOne(inputs[pos])
+		if !ok {
+			continue
+		}
+		e.Pos = pos
+		b, _ := json.Marshal(e)
+		_, _ = f.Write(append(b, '\n'))
+	}
+	_ = os.WriteFile(cur, []byte("done"), 0o644)
+}
+
+// vdRunIsolated executes all inputs in children; returns pos -> execution.
+func vdRunIsolated(t *testing.T, name string, n int) map[int]vdExec {
+	obsPath := filepath.Join(vOutDir(), "c34_"+name+"_obs.jsonl")
+	curPath := filepath.Join(vOutDir(), "c34_"+name+"_cur")
+	_ = os.Remove(obsPath)
+	fatal := map[int]string{}
+	from := 0
+	for attempt := 0; attempt < 40 && from < n; attempt++ {
+		_ = os.Remove(curPath)
+		ctx, cancel := context.WithTimeout(context.Background(), 240*time.Second)
+		cmd := exec.CommandContext(ctx, os.Args[0], "-test.run", "^TestVerifC34Addon$", "-test.timeout", "230s")
+		cmd.Env = append(os.Environ(), "VERIF_C34_CHILD=1", "VERIF_C34_FROM="+strconv.Itoa(from))
+		var stderr bytes.Buffer
+		cmd.Stderr = &stderr
+		cmd.Stdout = &stderr
+		err := cmd.Run()
+		timedOut := ctx.Err() != nil
+		cancel()
+		cur, _ := os.ReadFile(curPath)
+		if err == nil && string(cur) == "done" {
+			break
+		}
+		pos, perr := strconv.Atoi(strings.TrimSpace(string(cur)))
+		if perr != nil {
+			t.Fatalf("child died before its first input: %v\n%s", err, stderr.String())
+		}
+		msg := "child process died"
+		for _, ln := range strings.Split(stderr.String(), "\n") {
+			if strings.Contains(ln, "fatal error") || strings.Contains(ln, "panic:") || strings.Contains(ln, "signal") {
+				msg = strings.TrimSpace(ln)
+				break
+			}
+		}
+		if timedOut {
+			msg = "timeout: child killed after 240s"
+		}
+		fatal[pos] = msg
+		from = pos + 1
+	}
+	out := map[int]vdExec{}
+	if b, err := os.ReadFile(obsPath); err == nil {
+		for _, ln := range strings.Split(string(b), "\n") {
+			var e vdExec
+			if ln != "" && json.Unmarshal([]byte(ln), &e) == nil {
+				out[e.Pos] = e
+			}
+		}
+	}
+	for pos, msg := range fatal {
+		out[pos] = vdExec{Pos: pos, Obs: "OPanic", Fatal: msg}
+	}
+	return out
+}
+
 func TestVerifC34Addon(t *testing.T) {
 	name := vdecName()
-	rep := vNewReport("C34", fmt.Sprintf("every input of the storage harness (arbitrary bytes, mutated segments, broker-written segments with hostile record bodies, crafted index files) run through the %s processor's real decodeSegment/parseIndex under recover(); oracle: no panic, bytes allocated (runtime.MemStats.TotalAlloc delta) <= %d*len(input)+%d, no call slower than 5s", name, vdAllocC, vdAllocSlack))
-	rep.CaseFiles = []string{} // partial reports written before Cases() must stay well-formed
+	if os.Getenv("VERIF_C34_CHILD") != "" {
+		vdChildMain(t, name)
+		return
+	}
+	rep := vNewReport("C34", fmt.Sprintf("every input of the storage harness (arbitrary bytes, mutated segments, broker-written segments with hostile record bodies, crafted index files) run through the %s processor's real decodeSegment/parseIndex under recover() in a child process with a %d GiB address-space cap; oracle: no panic, no fatal out-of-memory death, bytes allocated (runtime.MemStats.TotalAlloc delta) <= %d*len(input)+%d, no call slower than 5s", name, vdChildAS>>30, vdAllocC, vdAllocSlack))
+	rep.CaseFiles = []string{}
 	var coq, jsons []string
-	_, _, idxSupported := vdecParseIndex(nil)
-	for _, in := range vdLoadInputs(t, "c34_inputs.json") {
-		cj := string(in.Case)
-		var obs, kind string
-		var pan string
-		var alloc uint64
-		var dur time.Duration
-		if in.Kind == "index" {
-			if !idxSupported {
-				continue
-			}
-			kind = vdIdxKind()
-			pan, alloc, dur = vdGuard(func() { obs, _, _ = vdIndexObs(in.Data) })
-		} else {
-			kind = vdKind()
-			pan, alloc, dur = vdGuard(func() { obs, _, _ = vdDecodeObs(in.Data) })
+	inputs := vdLoadInputs(t, "c34_inputs.json")
+	execs := vdRunIsolated(t, name, len(inputs))
+	for pos, in := range inputs {
+		e, ran := execs[pos]
+		if !ran {
+			continue // index input for a decoder without an index parser
 		}
+		cj := string(in.Case)
+		obs, kind, pan, alloc, dur := e.Obs, e.Kind, e.Pan, e.Alloc, time.Duration(e.DurNs)
 		rep.Hist("class=" + in.Class)
 		what := name
 		if in.Kind == "index" {
 			what = name + "-index"
+			if kind == "" {
+				kind = vdIdxKind()
+			}
+		} else if kind == "" {
+			kind = vdKind()
+		}
+		if e.Fatal != "" {
+			key := "fatal-" + what
+			if strings.Contains(e.Fatal, "out of memory") || strings.Contains(e.Fatal, "cannot allocate") {
+				key = "alloc-unbounded-" + what
+			} else if strings.HasPrefix(e.Fatal, "timeout") {
+				key = "timeout-" + what
+			}
+			rep.Fail("alloc-bounded", key, fmt.Sprintf("%s: the decoder process died on a %d-byte input (%s) under a %d GiB address-space cap: %s", what, len(in.Data), in.Class, vdChildAS>>30, e.Fatal), in.Case)
+			rep.Hist(what + ":fatal")
 		}
 		if pan != "" {
 			obs = "OPanic"
 			rep.Fail("no-panic", "panic-"+what+"-"+vdPanicSite(pan), fmt.Sprintf("%s panicked on a %d-byte input (%s): %s", what, len(in.Data), in.Class, pan), in.Case)
-			rep.WriteAs("C34_" + name)
 		}
 		if alloc > uint64(vdAllocC*len(in.Data)+vdAllocSlack) {
 			rep.Fail("alloc-bounded", "alloc-unbounded-"+what, fmt.Sprintf("%s allocated %d bytes for a %d-byte input (%s)", what, alloc, len(in.Data), in.Class), in.Case)
-			rep.WriteAs("C34_" + name)
 		}
 		if dur > 5*time.Second {
 			rep.Fail("terminates", "timeout-"+what, fmt.Sprintf("%s took %v on a %d-byte input", what, dur, len(in.Data)), in.Case)
@@ -280,7 +410,9 @@ func TestVerifC34Addon(t *testing.T) {
 		} else if obs == "OPanic" {
 			out = "panic"
 		}
-		rep.Hist(what + ":" + out)
+		if e.Fatal == "" {
+			rep.Hist(what + ":" + out)
+		}
 		rep.Count(cj, len(in.Data) >= 48 && (string(in.Data[:4]) == "KAFS" || string(in.Data[:4]) == "IDX\x00"))
 		if len(rep.Samples) < 3 {
 			rep.Sample(map[string]any{"class": in.Class, "len": len(in.Data), "outcome": out})
